@@ -338,10 +338,10 @@ func init() {
 		ID:        "C16",
 		Technique: "bounded-exhaustive enumeration on the real class functions: all pairs of lists up to length 4 over 3 values (incl. the same object twice) for Concatenate; all pairs of catalogs whose keys are ordered subsets of a 4-key universe with operand-specific values for Merge; every catalog over 3 keys x every key sequence up to length 3 over 4 keys for Extract; operand/result dumps compared and then mutated to expose sharing",
 		Rule:      "case = operand pair (or catalog + key sequence); the expected result is computed from the documented law",
-		Assume:    []string{"string keys, int values; a zero value is stored under a present key"},
+		Assume:    []string{"string keys, int values; a zero value is stored under a present key; Merge and Extract again over pointer, interface, float (signed zeros) and struct keys, where == and structural equality differ"},
 		Budget:    func(string) time.Duration { return 4 * time.Minute },
 		Units: func(string) []engine.Unit {
-			return []engine.Unit{{Name: "concatenate", Run: concatenate}, {Name: "merge", Run: merge}, {Name: "extract", Run: extract}}
+			return []engine.Unit{{Name: "concatenate", Run: concatenate}, {Name: "merge", Run: merge}, {Name: "extract", Run: extract}, {Name: "key-types", Run: keyTypeUnit}}
 		},
 	})
 }
